@@ -667,6 +667,34 @@ def key_specs_and_reductions_keep_the_mode_in_force(col):
             col.violation('C08/mode-leak:group-mode-reaches-a-reduction-outside-it', '%s: %r, expected %r' % (desc, got, want), None)
 
 
+def later_branches_after_a_branch_that_failed_in_an_argument(col):
+    """the branches of a Coalesce (Or, Switch cases) are evaluated in the mode in force where it stands, whether and HOW an earlier branch
+    failed: also when that branch was a T expression one of whose ARGUMENTS (operand, index, call argument) could not be evaluated"""
+    target = {'total': 5, 'name': 'x', 'rows': [{'total': 1}, {'total': 2}]}
+    firsts = [("T['total'] + T['bonus']", lambda: T['total'] + T['bonus']), ("T['rows'][T['idx']]", lambda: T['rows'][T['idx']]),
+              ("T['name'].join(T['parts'])", lambda: T['name'].join(T['parts'])), ("T['bonus']", lambda: T['bonus']), ("'bonus'", lambda: Auto('bonus')),
+              ("T['name'].join([T['parts']])", lambda: T['name'].join([T['parts']]))]
+    laters = [
+        ('Auto', 'string path', lambda f: Coalesce(f, 'total'), 5), ('Auto', 'tuple chain', lambda f: Coalesce(f, ('rows', len)), 2),
+        ('Auto', 'dict', lambda f: Coalesce(f, {'t': 'total'}), {'t': 5}), ('Auto', 'callable', lambda f: Coalesce(f, len), 3),
+        ('Auto', 'list below a step', lambda f: ('rows', Coalesce(f, ['total'])), [1, 2]), ('Auto', 'two failing branches first', lambda f: Coalesce(f, f, 'total'), 5),
+        ('Auto', 'Or', lambda f: Or(f, 'total'), 5), ('Auto', 'Switch case key', lambda f: Switch([(f, Val('first')), ('total', 'name')]), 'x'),
+        ('Auto', 'in a dict value next to a sibling', lambda f: {'a': Coalesce(f, 'total'), 'b': 'name'}, {'a': 5, 'b': 'x'}),
+        ('Fill', 'string literal', lambda f: Fill(Coalesce(f, 'total')), 'total'), ('Fill', 'tuple literal', lambda f: Fill(Coalesce(f, (T['total'], 'x'))), (5, 'x')),
+        ('Fill', 'callable', lambda f: Fill(Coalesce(f, len)), 3), ('Fill', 'dict literal', lambda f: Fill(Coalesce(f, {'t': T['total']})), {'t': 5}),
+        ('Match', 'type pattern', lambda f: Match(Coalesce(f, dict)), target), ('Match', 'dict pattern', lambda f: Match(Coalesce(f, {str: object})), target),
+    ]
+    for fname, mk_first in firsts:
+        for mode, desc, mk, want in laters:
+            spec = mk(mk_first())
+            got = call(G, dict(target), spec)
+            col.case(('later-branch-after-argument-failure', fname, mode, desc), True)
+            col.count('glom_evaluations')
+            if not (got.ok and type(got.value) is type(want) and got.value == want):
+                col.violation('C08/later-branch-evaluated-in-another-mode-after-an-argument-failure:' + mode, 'first branch %s, later branch: %s under %s: %s gives %r, '
+                              'expected %r' % (fname, desc, mode, short(repr(spec), 160), got, want), None)
+
+
 def run(ctx):
     col, rng = ctx.col, ctx.rng
     try:
@@ -693,6 +721,7 @@ def run(ctx):
                 constructs_that_pass_the_mode_on(col)
                 classes_of_specs_are_literals_in_argument_position(col)
                 key_specs_and_reductions_keep_the_mode_in_force(col)
+                later_branches_after_a_branch_that_failed_in_an_argument(col)
             for i in range(ctx.n(3000, 30000)):
                 mode_case(col, rng, watch, tracer)
         tracer.uninstall()
